@@ -63,6 +63,9 @@ ASSUMPTIONS = [
 ]
 
 
+CALLBACK_CAP = 2500  # callbacks (solver, score, uniqueness, pretest, penalty) per execution
+
+
 class ScriptExhausted(Exception):
     pass
 
@@ -1276,12 +1279,14 @@ def exec_gen(sc, variant, res, check=True, retain=True, shared=None, fail_at=Non
 
     seam = c18_segment._Seam(res)  # counts every draw; a run-away loop in the code under test ends the run
 
+    seen_ids = set()  # the objects in `seen` are kept alive, so their ids are unique
+
     def note(obj, where):
         if not retain:
             return
-        for o, snap, _ in seen:
-            if o is obj:
-                return
+        if id(obj) in seen_ids:
+            return
+        seen_ids.add(id(obj))
         seen.append((obj, copy.deepcopy(obj), where))
 
     def purity(where):
@@ -1295,6 +1300,10 @@ def exec_gen(sc, variant, res, check=True, retain=True, shared=None, fail_at=Non
 
     def meddle():
         state["n_cb"] += 1
+        if state["n_cb"] > CALLBACK_CAP:
+            # a generation that keeps rejecting (e.g. a pretest that never passes with max_steps unset) is cut
+            # short like one that exhausts max_calls: both executions stop at the same point
+            raise _StopRun()
         if sc["det_seed"] is None:
             return  # with Python's random in use, touching it would legitimately change the run
         if interfere == "consume":
